@@ -352,6 +352,18 @@ def run_c17(ctx, rng, job):
             bad = [s for s in shapes if not binds(sig, s)]
             expected = [(BrokenMethodImplementation, 'm')] if bad else []
             ctx.count('signature_pairs')
+            if form != 'function-on-instance' and not gm['varargs'] and idx % 3 == 0:
+                # the same implementation with additional *defaulted keyword-only* parameters: they bind in none of the
+                # admitted call shapes and excuse nothing
+                implk, hmk = mkfunc('m', self_first=True, kwonly=(True, True)[:1 + idx % 2], **gm)
+                Ck = type('CandK', (object,), {'m': implk})
+                classImplements(Ck, I)
+                candk = Ck() if form == 'bound-method' else Ck
+                sigk = inspect.signature(candk.m) if form == 'bound-method' else drop_first(inspect.signature(implk))
+                badk = [s_ for s_ in shapes if not binds(sigk, s_)]
+                ctx.count('implementations_with_keyword_only_defaults')
+                check_verify(ctx, fn, I, candk, False, [(BrokenMethodImplementation, 'm')] if badk else [],
+                             {'form': form + '-kwonly-defaults', 'interface': hi, 'implementation': hmk})
             if form == 'class':
                 # The same function object under the other view: the class object itself provides an
                 # interface that describes the *unbound* function (instance first).  Verification must not
@@ -491,6 +503,16 @@ def multi_case(ctx, rng, mod):
         top.__bases__ = (Interface,)
         check_verify(ctx, fn, I, cand, tentative, expected,
                      {'form': 'multi-after-ancestor-rebase-back', 'class': as_class, 'declared': declared, 'tentative': tentative})
+        if rng.random() < 0.5:
+            # the defining ancestor is replaced by a re-definition of the same name and module that asks for one
+            # more method (equal, not identical: what a reloaded module leaves behind)
+            twin = InterfaceClass('IVB', (Interface,), dict(base_attrs, zz_twin=mkfunc('zz_twin', req=1)[0]), __module__=mod)
+            for holder in [I] + [x for x in I.__iro__ if x is not I]:
+                if any(b is top for b in holder.__bases__):
+                    holder.__bases__ = tuple(twin if b is top else b for b in holder.__bases__)
+            ctx.count('multi_reverified_after_twin_swap')
+            check_verify(ctx, fn, I, cand, tentative, expected + [(BrokenImplementation, 'zz_twin')],
+                         {'form': 'multi-after-equal-twin-swap', 'class': as_class, 'declared': declared, 'tentative': tentative})
     ctx.shape(('c17multi', as_class, declared, tentative, tuple(sorted(c.__name__ for c, _ in expected))), nontrivial=len(expected) >= 2)
 
 
